@@ -1,0 +1,39 @@
+//! Seams for deterministic simulation, compiled only with `--cfg dmntk_verif`.
+//!
+//! Nothing in this module has any effect until a simulator installs a callback.
+
+use std::sync::RwLock;
+
+/// Callback invoked at every scheduling point.
+static SCHED_POINT: RwLock<Option<fn()>> = RwLock::new(None);
+
+/// Callback returning the simulated current local date as `(year, month, day)`.
+static TODAY: RwLock<Option<fn() -> (i32, u8, u8)>> = RwLock::new(None);
+
+/// Installs or removes the callback invoked at every scheduling point.
+pub fn set_sched_point(callback: Option<fn()>) {
+  if let Ok(mut guard) = SCHED_POINT.write() {
+    *guard = callback;
+  }
+}
+
+/// Scheduling point, does nothing when no callback is installed.
+pub fn sched_point() {
+  let callback = SCHED_POINT.read().map(|guard| *guard).unwrap_or(None);
+  if let Some(f) = callback {
+    f();
+  }
+}
+
+/// Installs or removes the source of the simulated current local date.
+pub fn set_today(callback: Option<fn() -> (i32, u8, u8)>) {
+  if let Ok(mut guard) = TODAY.write() {
+    *guard = callback;
+  }
+}
+
+/// Returns the simulated current local date when the source is installed.
+pub fn today() -> Option<(i32, u8, u8)> {
+  let callback = TODAY.read().map(|guard| *guard).unwrap_or(None);
+  callback.map(|f| f())
+}
